@@ -3,7 +3,7 @@ import DimodModel.Wire
 open Wire Eqm
 
 /-! Line-protocol driver for the equality model (property C18).
-    `eq A B` | `aeq PLACES A B` | `opeq SAME A B` | `opne SAME A B`  →  `T` | `F` | `raise:value` | `raise:attr`
+    `eq A B` | `aeq PLACES A B` | `opeq SAME A B` | `opne SAME A B` | `veq KIND A B` | `vne KIND A B`  →  `T` | `F` | `raise:value` | `raise:attr`
     object ::= `num=<rat>` | `other` | model | `cqm!<types>!<model>!<cons>`
     model  ::= `<kind>|<vars>|<lin>|<quad>|<off>|<types>`, kind = `bqm.SPIN` … | `qm` | `view`,
                quad item `u&v&bias`, types item `label~VT`
@@ -52,6 +52,11 @@ def parseObj? (s : String) : Option Obj :=
     | _ => none
   else (parseModel? s).map .model
 
+def parseVKind? (s : String) : Option VKind :=
+  if s = "linear" then some .linear else if s = "adj" then some .adj else if s = "quadratic" then some .quadratic
+  else if s.startsWith "nbh=" then (parseLabel? (s.drop 4).toString).map .nbh
+  else none
+
 def showOut : M Bool → String
   | .ok true => "T" | .ok false => "F"
   | .error .value => "raise:value" | .error .attr => "raise:attr"
@@ -66,6 +71,11 @@ def step (line : String) : String :=
     | some a, some b => showOut (opEq (s = "1") a b) | _, _ => "bad-op"
   | ["opne", s, a, b] => match parseObj? a, parseObj? b with
     | some a, some b => showOut (opNe (s = "1") a b) | _, _ => "bad-op"
+  -- mapping views: `veq <linear|adj|quadratic|nbh=<label>> A B` (A is the receiver of `__eq__`)
+  | ["veq", k, a, b] => match parseVKind? k, parseModel? a, parseModel? b with
+    | some k, some a, some b => if viewEq k a b then "T" else "F" | _, _, _ => "bad-op"
+  | ["vne", k, a, b] => match parseVKind? k, parseModel? a, parseModel? b with
+    | some k, some a, some b => if viewNe k a b then "T" else "F" | _, _, _ => "bad-op"
   -- the code before the repairs (for the record; not used by the check)
   | ["eq0", a, b] => match parseObj? a, parseObj? b with
     | some a, some b => showOut (isEqualWith false false false a b) | _, _ => "bad-op"
